@@ -50,9 +50,9 @@ CHECKS.update({
     'C09': {'engine': 'kani+verus', 'design_ref': '5 C09', 'technique': 'Kani contract harnesses on the compiled registry functions (iter, constants, REF_UNIT, as_qty, unit_from_scale/from_scale, from_symbol) per type; expected order computed from the current declarations by the stated rule',
             'level_text': 'Per type: loop-free / constant-bound harnesses with unwinding assertions; scale lookups over every f64 bit pattern; symbol lookups over every declared symbol (symbolic unit) and its one-character extensions / truncations. Arbitrary strings are bounded (thorough: concrete near misses).',
             'level_note': 'Trusted: Kani/CBMC; std iterator/String code is executed as compiled MIR; declaration parser of the generator; arbitrary-string lookups are not explored beyond the listed families (bounded).'},
-    'C14': {'engine': 'kani', 'design_ref': '5 C14', 'technique': 'Kani contract harnesses on ConversionTable::convert with symbolic tables (N <= 4 rows) and on TEMPERATURE_CONVERTER; Verus lemmas over the extracted table constants',
-            'level_text': 'Selection contract (same unit -> identical value; first matching row; None iff no row) for every table of up to 4 rows over symbolic units; the temperature table is total over all ordered pairs; data flow amount*factor+offset on a bounded value set.',
-            'level_note': 'bounded: tables with more than 4 rows and the bit-exact affine map for arbitrary amounts are not covered by the quick tier; trusted: Kani/CBMC.'},
+    'C14': {'engine': 'kani', 'design_ref': '5 C14', 'technique': 'Kani contract harnesses on ConversionTable::convert with symbolic tables (N = 1, 2, 3, 4, 6, 9, 12 rows) and on TEMPERATURE_CONVERTER; Verus lemmas over the extracted table constants',
+            'level_text': 'Selection contract (same unit -> identical value; first matching row; None iff no row) for every table of 1, 2, 3, 4, 6, 9 or 12 rows over symbolic units; the temperature table is total over all ordered pairs; data flow amount*factor+offset on a bounded value set.',
+            'level_note': 'bounded: tables with more than 12 rows (and sizes 5, 7, 8, 10, 11) and the bit-exact affine map for arbitrary amounts are not covered by the quick tier; trusted: Kani/CBMC.'},
     'C16': {'engine': 'kani', 'design_ref': '5 C16', 'technique': 'Kani loop-free harnesses over all i8 exponents, every prefix row against the SI brochure table, iteration order, every valid UTF-8 abbreviation string of 0 to 3 bytes',
             'level_text': 'Exhaustive over the finite parts (256 exponents, 25 rows, every valid UTF-8 string of up to 3 bytes); complete proofs, no unwinding bound involved except the 25-element iteration.',
             'level_note': 'Trusted: spec/si_prefixes.toml transcribes the SI brochure; names are compared with the library\'s capitalised spelling; abbreviation strings longer than 3 bytes other than the table\'s own are not explored.'},
